@@ -214,6 +214,58 @@ def access_switch(n: int, sw: int, remap: bool, yaqlized: bool) -> bool:
     return H.done(access_core(name, PATH, 0, 0, sw, bool(remap), bool(yaqlized)))
 
 
+# ---------------------------------------------------------------- autoYaqlizeResult grants the returned object only
+def auto_yaqlize_scope(via: int, then: int, auto: bool) -> bool:
+    """
+    pre: 0 <= via < 3 and 0 <= then < 3
+    post: _
+    """
+    via, then, auto = BOX16[via][0], BOX16[then][0], [(False,), (True,)][int(auto)][0]
+    with H.NoTracing():
+        log = []
+
+        class Vault:
+            def __init__(self, tag):
+                object.__setattr__(self, 'tag', tag)
+
+            def __getattribute__(self, name):
+                if name in ('__class__', '__dict__', '__yaqlization__', 'tag') or name in TOOL_NAMES:
+                    return object.__getattribute__(self, name)
+                log.append((object.__getattribute__(self, 'tag'), 'attr', name))
+                return Member([], name)
+
+            def __getitem__(self, key):
+                log.append((object.__getattribute__(self, 'tag'), 'item', key))
+                return SECRET
+
+        granted, other = Vault('granted'), Vault('other')
+
+        class Owner:
+            child = granted
+
+            def get_child(self):
+                return granted
+
+            def __getitem__(self, key):
+                return granted
+        owner = Owner()
+        yaqlization.yaqlize(owner, auto_yaqlize_result=auto)
+        ctx = ROOT.create_child_context()
+        ctx['o'], ctx['v'] = owner, other
+        first = ['$o.child', '$o.get_child()', '$o[child]'][via]
+        second = ['$v.secret', '$v.reveal()', '$v[secret]'][then]
+        texts = []
+        for t in (first, second, first + ['.secret', '.reveal()', '[secret]'][then]):
+            try:
+                texts.append(str(ENG(t).evaluate(context=ctx)))
+            except Exception as e:
+                texts.append(str(e))
+        touched_other = [e for e in log if e[0] == 'other']
+        touched_granted = [e for e in log if e[0] == 'granted']
+        ok = not touched_other and SECRET not in texts[1] and (bool(touched_granted) == auto)
+    return H.done(ok)
+
+
 # ---------------------------------------------------------------- registry sweep with a non-yaqlized canary
 class Canary:
     """not yaqlized, not iterable by declaration, not callable; every attribute read and item read is logged"""
@@ -387,6 +439,10 @@ def conditions(tier, seed):
                                   'menu %s' % (NAMES, forms[path], masks, MENU_DESC)})
         out.append({'name': 'access_switch[path=%d]' % path, 'func': 'access_switch', 'timeout': t, 'param': {'path': path},
                     'bounds': 'NAME from %r through %s; 3 yaqlization switches, remapping on/off, yaqlized or not' % (NAMES, forms[path])})
+    out.append({'name': 'auto_yaqlize_scope', 'func': 'auto_yaqlize_scope', 'timeout': 100,
+                'bounds': 'owner yaqlized with autoYaqlizeResult on/off returns a host object through attribute, method or index; a '
+                          'second, never yaqlized instance of the same class is then accessed by attribute, method or index '
+                          '(selectors; each path one concrete two-step history)'})
     from vf import param
     saved = dict(param.P)
     nd = len(definitions())
@@ -481,6 +537,11 @@ def replay(cond, args):
         return {'reproduced': not ok, 'key': 'C07/access-path-%d' % path,
                 'what': 'member access %s with %r touches host members the policy does not admit (or misses admitted '
                         'ones); menu %s' % (['$o.NAME', '$o.NAME(..)', '$o[NAME]', 'call(NAME,..,$o)'][path], full, MENU_DESC)}
+    if f == 'auto_yaqlize_scope':
+        ok = auto_yaqlize_scope(**args)
+        return {'reproduced': not ok, 'key': 'C07/auto-yaqlize-leaks-to-other-instances',
+                'what': 'after an autoYaqlizeResult owner returned one host object, a different, never yaqlized object of the same '
+                        'class became reachable (or the returned one did not) for %r' % (args,)}
     if f in ('sweep', 'probe_known'):
         if f == 'probe_known':
             hits = []
